@@ -14,7 +14,8 @@ THEOREMS = ["Kdf.Props.C13." + t for t in (
     "get_after_set", "set_frame", "set_wrong_type_noop", "clear_subtree_unset", "clear_frame",
     "iter_each_set_child_once", "newAttr_wf", "lookup_sound", "clone_falls_back", "clone_private_first",
     "persist_across_reopen", "volatile_dropped", "ancestors_kept", "failed_open_drops_volatile",
-    "numFiles_rollback_sub", "numFiles_rollback_no_stale", "numFiles_fail_no_stale", "version_code_follows_release")]
+    "numFiles_rollback_sub", "numFiles_rollback_no_stale", "numFiles_fail_no_stale", "version_code_follows_release",
+    "numFilesAlias_one", "fileFd_unset_unless_one", "clearHooked_clears_alias", "clearHooked_frame", "setFileFd_alias_set")]
 
 M64 = (1 << 64) - 1
 TYMAP = dict(number="num", address="addr", string="str", bitmap="bmp", blob="blob", directory="dir", nil="nil")
